@@ -363,6 +363,23 @@ fn main() {
         let mut im: BTreeMap<i64, u64> = BTreeMap::new(); im.insert(i64::MIN, u64::MAX); im.insert(0, 0); im.insert(7, 1);
         match (sonic_rs::to_string(&im), serde_json::to_string(&im)) { (Ok(a), Ok(b)) if a != b => report("C05", format!("to_string of an integer-keyed map gives {:?}, reference {:?}", a, b)), _ => {} }
     }
+    // C03 (lossy configuration): a stream of Values over input with invalid UTF-8 inside string literals — every
+    // document after the first must still be read from its own first byte
+    if want("C03") {
+        let firsts: [&[u8]; 5] = [b"\"\xff\"", b"\"a\xff\xfeb\"", b"[\"\xc3\"]", b"{\"k\":\"\xff\xff\xff\"}", b"\"ok\""];
+        let seconds: [&str; 4] = ["12345", "[1,2]", "{\"a\":true}", "\"tail\""];
+        for f in firsts.iter() { for sec in seconds.iter() {
+            let mut doc = f.to_vec(); doc.push(b' '); doc.extend_from_slice(sec.as_bytes());
+            let r = catch_unwind(AssertUnwindSafe(|| {
+                let st = sonic_rs::Deserializer::from_slice(&doc).utf8_lossy().into_stream::<sonic_rs::Value>();
+                st.take(2).map(|x| x.ok().map(|v| v.to_string())).collect::<Vec<_>>()
+            }));
+            match r {
+                Ok(v) => { if v.len() < 2 || v[1].as_deref() != Some(*sec) { report("C03", format!("lossy stream over {:?}: second document read as {:?}, expected {:?}", String::from_utf8_lossy(&doc), v.get(1), sec)); } }
+                Err(_) => report("C03", format!("lossy stream over {:?} panics", String::from_utf8_lossy(&doc))),
+            }
+        } }
+    }
     // C04: typed deserialization against serde_json on the same text: accept/reject and value
     if want("C04") {
         use std::collections::BTreeMap;
